@@ -2,6 +2,8 @@ package main
 
 import (
 	"fmt"
+	"go/token"
+	"sort"
 	"strings"
 
 	"golang.org/x/tools/go/ssa"
@@ -23,6 +25,7 @@ func runC11(c *Ctx, r *Report) {
 	c11R5(c, r, "C11.R5")
 	c11R6(c, r, "C11.R6")
 	c11TryAgain(c, r, "C11.R7")
+	c11Defaults(c, r, "C11.R8")
 }
 
 func c11R1(c *Ctx, r *Report, rule string) {
@@ -494,4 +497,74 @@ func c11TryAgain(c *Ctx, r *Report, rule string) {
 	r.check(len(pGive) == 0, rule, fnName, "give-up condition", pos, fmt.Sprintf("%d path(s) give up, all under time.Since(start) >= try_duration", nGive), strings.Join(dedup(pGive), "; "))
 	r.check(len(pWait) == 0, rule, fnName, "wait", pos, fmt.Sprintf("%d path(s) wait on timer(try_interval) | ctx.Done", nWait), strings.Join(dedup(pWait), "; "))
 	r.check(len(pRes) == 0, rule, fnName, "definite answers", pos, fmt.Sprintf("%d paths", len(paths)), strings.Join(dedup(pRes), "; "))
+}
+
+// c11Defaults: options are defaulted in one place. An option field that Handler.Provision assigns a default to
+// after it has provisioned the upstreams must not be read while the upstreams are provisioned: the value
+// seen there is the raw, not yet defaulted one (max_fails left unset reads as 0 although it will be 1).
+func c11Defaults(c *Ctx, r *Report, rule string) {
+	r.rule(rule, "no read before default: every option field to which Handler.Provision assigns a default after the call that provisions the upstreams is not read in Upstream.provision or the module functions it calls", 2)
+	fnName := "modules/l4proxy.(*Handler).Provision"
+	fn := c.Fn(fnName)
+	up := c.Fn("modules/l4proxy.(*Upstream).provision")
+	if fn == nil || up == nil {
+		r.bad(rule, fnName, "exists", "-", "Handler.Provision / Upstream.provision not found")
+		return
+	}
+	var calls []ssa.Instruction
+	for _, ci := range callsIn(fn) {
+		if ci.Common().StaticCallee() == up {
+			calls = append(calls, ci)
+		}
+	}
+	if len(calls) == 0 {
+		r.bad(rule, fnName, "provisions upstreams", c.pos(fn.Pos()), "the call to Upstream.provision was not found")
+		return
+	}
+	later := map[string]string{}
+	for _, b := range fn.Blocks {
+		for _, in := range b.Instrs {
+			st, ok := in.(*ssa.Store)
+			if !ok {
+				continue
+			}
+			_, sn, f, ok := fieldAddr(st.Addr)
+			if !ok || !strings.HasPrefix(sn, "modules/l4proxy.") || sn == "modules/l4proxy.Handler" {
+				continue
+			}
+			for _, cl := range calls {
+				if canReach(cl, st) {
+					later[sn+"."+f] = c.ipos(st)
+				}
+			}
+		}
+	}
+	r.check(len(later) >= 3, rule, fnName, "defaults applied after the upstreams", c.pos(fn.Pos()), fmt.Sprintf("%d option fields are defaulted after the upstreams are provisioned: %v", len(later), sortedKeys(later)), fmt.Sprintf("expected the defaulting of max_fails / active timeout / interval after the upstream loop, found %v", sortedKeys(later)))
+	var bad []string
+	reach := c.reach([]*ssa.Function{up})
+	for _, g := range sortedFuncs(reach) {
+		for _, b := range g.Blocks {
+			for _, in := range b.Instrs {
+				ld, ok := in.(*ssa.UnOp)
+				if !ok || ld.Op != token.MUL {
+					continue
+				}
+				if _, sn, f, ok := fieldAddr(ld.X); ok {
+					if at, isLater := later[sn+"."+f]; isLater {
+						bad = append(bad, fmt.Sprintf("%s reads %s.%s at %s, but its default is only applied afterwards (%s)", fname(g), sn, f, c.ipos(ld), at))
+					}
+				}
+			}
+		}
+	}
+	r.check(len(bad) == 0, rule, fname(up), "reads no option that is defaulted later", c.pos(up.Pos()), fmt.Sprintf("%d functions reachable from Upstream.provision scanned", len(reach)), strings.Join(dedup(bad), "; ")+": with the option left unset the decision is taken on 0 instead of the default")
+}
+
+func sortedKeys(m map[string]string) []string {
+	var out []string
+	for k := range m {
+		out = append(out, k)
+	}
+	sort.Strings(out)
+	return out
 }
